@@ -249,6 +249,36 @@ def work(chunk, thorough=False, seed=0):
     return acc
 
 
+# ---------------------------------------------------------------------------------------------
+# two-step histories: a call must not depend on an earlier call (same grid, other order n / stencil m, ...)
+
+def history_cases():
+    grids = [np.linspace(-1.0, 2.5, 14), (1.5 - np.linspace(0.0, 1.0, 14) ** 2 * 3.0)]
+    out = []
+    for gi in range(len(grids)):
+        for n, m in ((1, 1), (2, 1), (3, 1), (1, 2), (2, 2), (4, 1)):
+            out.append((gi, n, m))
+    return grids, out
+
+
+def history_run(case, shared):
+    from numdifftools.fornberg import fd_derivative
+    grids, _ = history_cases()
+    gi, n, m = case
+    x = grids[gi]
+    fx = ((x - 0.25) ** 4 - 2.0 * x * x + 3.0 * x)
+    try:
+        return fw.obs(fd_derivative(fx, x, n, m))
+    except Exception as e:
+        return fw.obs(e)
+
+
+def work_history(chunk):
+    acc = fw.Acc()
+    fw.pair_histories(acc, 'C16', 'fd_derivative-call-order', history_cases()[1], history_run)
+    return acc
+
+
 def run(ctx):
     thorough = not ctx.quick
     cases = []
@@ -264,6 +294,7 @@ def run(ctx):
     # most expensive first, dealt over the chunks
     cases.sort(key=lambda c: -(c[2] * (c[0] // 2 + c[1]) ** 3))
     acc = ctx.pmap(work, cases, chunk=1, thorough=thorough, seed=ctx.seed)
+    acc.merge(ctx.pmap(work_history, [0], chunk=1))
     x = grid('jittered', 8)
     acc.sample(dict(n=2, m=2, N=8, grid='jittered', x=x, monomial='(x-%r)^3' % ((x[0] + x[-1]) / 2),
                     fx=samples(x, (x[0] + x[-1]) / 2, 3, 'float64')[0].tolist()))
@@ -304,6 +335,16 @@ def run(ctx):
 
 
 def replay(case):
+    if case.get('kind') == 'history':
+        cs = history_cases()[1]
+        a, b = cs[case['i']], cs[case['j']]
+        fw.fresh_library_state()
+        alone = history_run(b, {})
+        fw.fresh_library_state()
+        history_run(a, {})
+        got = history_run(b, {})
+        fw.fresh_library_state()
+        return got == alone, 'fd_derivative %r then %r: %s' % (a, b, 'same' if got == alone else 'differs from the call alone')
     n, m, N = int(case['n']), int(case['m']), int(case['N'])
     x = grid(case['grid'], N)
     if case['direction'] == 'decreasing':
